@@ -94,7 +94,8 @@ def run_family(ctx, W, out, nsched, terms):
             if ticks and others:
                 return r2.choice(ticks) if r2.random() < bias * 0.8 else r2.choice(others)
             return r2.randrange(len(en))
-        trace, errors, complete, drv = SC.explore(W, out, ch, maxlen=1500, slow_pm=(j % 2 == 1), with_cdb=(j % 4 == 2))
+        trace, errors, complete, drv = SC.explore(W, out, ch, maxlen=1500, slow_pm=(j % 2 == 1), with_cdb=(j % 4 == 2),
+                                                  lockfin=(j % 4 == 3))
         evs = [t[0] for t in trace]
         case = dict(base, schedule=evs)
         ctx.case([W, sorted(out.items()), evs], len(W) >= 2 and len(evs) > 3 * len(W))
@@ -102,6 +103,9 @@ def run_family(ctx, W, out, nsched, terms):
         if errors:
             ctx.disagree(case, errors[0][-1500:], None, 'C02 driver: Controller.run raised an unexpected exception')
             continue
+        if drv.atomicity:
+            import c01
+            c01.report_atomicity(ctx, case, drv, who='C02')
         if not complete:
             ctx.fail(case, 'stage loop did not terminate within 1500 events under a fair random schedule', [])
             continue
